@@ -348,14 +348,15 @@ func SpecSetLine(lines [][]byte, t int, v []byte) [][]byte {
 	return out
 }
 
-// @ lemma LemmaFirstId
-// @   tags C11 C12
-// @   requires 0 <= i
-// @   decreases len(lines) - i
-// @   ensures i <= SpecFirstId(ruleId, lines, i) || SpecFirstId(ruleId, lines, i) == len(lines)
-// @   ensures SpecFirstId(ruleId, lines, i) <= len(lines)
-// @   ensures implies(SpecFirstId(ruleId, lines, i) < len(lines), SpecIsIdLine(ruleId, lines[SpecFirstId(ruleId, lines, i)]))
-// @   ensures forall(i, SpecFirstId(ruleId, lines, i), func(j int) bool { return !SpecIsIdLine(ruleId, lines[j]) })
+//@ lemma LemmaFirstId
+//@   tags C11 C12
+//@   requires 0 <= i
+//@   decreases len(lines) - i
+//@   ensures i <= SpecFirstId(ruleId, lines, i) || SpecFirstId(ruleId, lines, i) == len(lines)
+//@   ensures SpecFirstId(ruleId, lines, i) <= len(lines)
+//@   ensures implies(SpecFirstId(ruleId, lines, i) < len(lines), SpecIsIdLine(ruleId, lines[SpecFirstId(ruleId, lines, i)]))
+//@   ensures forall(i, SpecFirstId(ruleId, lines, i), func(j int) bool { return !SpecIsIdLine(ruleId, lines[j]) })
+
 func LemmaFirstId(ruleId string, lines [][]byte, i int) {
 	if i >= len(lines) {
 		return
